@@ -117,6 +117,8 @@ def rand_cfg(rng, profile=None, names="plain", max_vars=4, max_terms=3, max_prod
     if names != "plain" and "S" not in vs:
         vs[0] = "S"
     ts = TERMS[:nt]
+    if names == "adv" and rng.random() < 0.35:       # distinct terminals with the same spelling
+        ts = [1, "1", "a"][:max(2, nt)]
     start = vs[0]
     prods = []
     n = rng.randint(1, max_prods)
